@@ -155,6 +155,12 @@ def make_witnesses():
                       'typename V::size_type>::value, "SVW");\n'
                       'typename V::size_type f (V& v) { return %serase (v, 1); }' % (pre, pre),
                       what='erase (v, value) exists and returns size_type')
+                g.add('R16.4', 'erase', 'erase_hetero', key, v +
+                      'static_assert (std::is_same<decltype (%serase (std::declval<V&> (), c16::Key ())), '
+                      'typename V::size_type>::value, "SVW");\n'
+                      'typename V::size_type f (V& v) { return %serase (v, c16::Key ()); }' % (pre, pre),
+                      what='erase (v, value) accepts any value type U for which `element == value` is valid '
+                           '(std::erase takes const U&, not const value_type&)')
                 g.add('R16.4', 'erase', 'erase_if', key, v +
                       'static_assert (std::is_same<decltype (%serase_if (std::declval<V&> (), c16::Pred ())), '
                       'typename V::size_type>::value, "SVW");\n'
@@ -261,7 +267,7 @@ def collect(ck, tier):
     ck.floor('c16_exist swap witnesses',
              counts.get('swap', 0) + counts.get('swap_noexcept', 0) + counts.get('swap_constraint', 0),
              16 + 16 + 4 + 6)
-    ck.floor('c16_exist erase witnesses', counts.get('erase', 0), 16)
+    ck.floor('c16_exist erase witnesses', counts.get('erase', 0), 24)
     ck.floor('c16_exist CTAD witnesses', counts.get('ctad', 0), 4)
     ck.extra['c16_exist'] = {'witnesses_by_group': counts, 'features': feats,
                              'configs': sorted(results)}
